@@ -327,8 +327,8 @@ func v28Scenario(r vh.R, obs *v28Obs) (string, map[string]any) {
 	go func() { wg.Wait(); close(wgDone) }()
 	select {
 	case <-wgDone:
-	case <-time.After(60 * time.Second):
-		return "emitters did not finish within 60 s (an Emit call is blocked)", map[string]any{"emitting_now": emitting.Load(), "buffer": bufSize, "emitters": emitters}
+	case <-time.After(300 * time.Second):
+		return "emitters did not finish within 300 s (an Emit call is blocked)", map[string]any{"emitting_now": emitting.Load(), "buffer": bufSize, "emitters": emitters}
 	}
 	<-injDone
 	if c := current(); c != nil {
